@@ -124,21 +124,27 @@ def typePlusType (isGeneric : T → Bool) (generic t u : T) : List T :=
 /-! ### Export (`utils/graph.py::output_graph` with `sort=True`): the node list sorted by
 `str(node)` and the edge list sorted by `(str(src), str(dst))`, each edge carrying its style. -/
 
-def insertSorted {α : Type} (lt : α → α → Bool) (x : α) : List α → List α
+/-- insertion into a list sorted by a `Nat` key -/
+def insertSorted {α : Type} (key : α → Nat) (x : α) : List α → List α
   | [] => [x]
-  | y :: ys => if lt x y then x :: y :: ys else y :: insertSorted lt x ys
+  | y :: ys => if key x ≤ key y then x :: y :: ys else y :: insertSorted key x ys
 
-def sortBy {α : Type} (lt : α → α → Bool) (l : List α) : List α := l.foldr (insertSorted lt) []
+def sortBy {α : Type} (key : α → Nat) (l : List α) : List α := l.foldr (insertSorted key) []
 
-structure Exported where
-  nodes : List String
-  edges : List (String × String × Bool)    -- src, dst, dashed?
+structure Exported (T : Type) where
+  nodes : List T
+  edges : List (Edge T)                    -- each with its style (dashed iff inferential)
   deriving DecidableEq, Repr
 
-def exportModel (name : T → String) (b : Built T) (baseOnly : Bool) : Exported :=
+/-- `nameRank t` is the position of `str(t)` among the sorted type names (generated, and checked
+against `String` order in VProofs); `width` exceeds every rank.  Sorting edges by
+`(str(src), str(dst))` is sorting by `nameRank src * width + nameRank dst`. -/
+def edgeKey (nameRank : T → Nat) (width : Nat) (e : Edge T) : Nat :=
+  ((nameRank e.src * width + nameRank e.dst) * 2) + (if e.inferential then 1 else 0)
+
+def exportModel (nameRank : T → Nat) (width : Nat) (b : Built T) (baseOnly : Bool) : Exported T :=
   let es := if baseOnly then b.baseEdges else b.edges
-  { nodes := sortBy (fun a b => a < b) (b.nodes.map name),
-    edges := sortBy (fun a b => a.1 < b.1 || (a.1 == b.1 && a.2.1 < b.2.1))
-               (es.map (fun e => (name e.src, name e.dst, e.inferential))) }
+  { nodes := sortBy nameRank b.nodes,
+    edges := sortBy (edgeKey nameRank width) es }
 
 end V
